@@ -91,6 +91,9 @@ func NewQuery(sql string) (*Command, error) {
 }
 
 func QuoteString(str string) string {
+	// the parser this library uses follows MySQL: inside a string literal a backslash
+	// starts an escape sequence, so it has to be doubled like the quote itself
+	str = strings.ReplaceAll(str, `\`, `\\`)
 	return "'" + strings.ReplaceAll(str, "'", "''") + "'"
 }
 
